@@ -213,6 +213,9 @@ class Randomizer(RandIF):
                     active_randsets.append(rs)
                     for f in rs.all_fields():
                         f.dispose()
+                    # (also the fields that are only reached through the 
+                    # constraints, such as the size of a list named as a whole)
+                    RandSetDisposeVisitor().dispose(rs)
                         
                 if self.solve_fail_debug > 0:
                     try:
